@@ -1,3 +1,40 @@
-import JSight.Basic
+import JSight.Proofs.Registry
+/-!
+C11 — uniqueness of named declarations (name-level registry model `JSight.Reg`): a document is accepted iff
+no (collection, key) pair occurs twice; the diagnostic is located at the second occurrence.
+-/
 namespace JSight.C11
+open JSight.Reg
+
+/-- a second declaration with the same (collection, key) is rejected, and the diagnostic is located at the SECOND one,
+    provided the declarations before it are pairwise distinct -/
+theorem duplicate_rejected (pre mid post : List Decl) (d₁ d₂ : Decl)
+    (hk : d₁.coll = d₂.coll ∧ d₁.key = d₂.key)
+    (hdist : ((pre ++ d₁ :: mid).map (fun d => (d.coll, d.key))).Nodup) :
+    addAll [] (pre ++ d₁ :: mid ++ d₂ :: post) = .error d₂.id := by
+  rw [addAll_append, addAll_of_nodup [] _ hdist (by intro x _ hx; cases hx)]
+  simp only [addAll]
+  rw [add_dup_eq]
+  rw [← hk.1, ← hk.2]
+  simp
+
+/-- accepted ⇒ no (collection, key) occurs twice -/
+theorem accepted_nodup (ds : List Decl) (es : Entries) (h : addAll [] ds = .ok es) :
+    (ds.map (fun d => (d.coll, d.key))).Nodup ∧ es = ds.map (fun d => (d.coll, d.key)) :=
+  (addAll_nil_ok_iff ds es).mp h
+
+/-- accepted ⇔ distinct -/
+theorem accepted_iff (ds : List Decl) :
+    (∃ es, addAll [] ds = .ok es) ↔ (ds.map (fun d => (d.coll, d.key))).Nodup := by
+  constructor
+  · intro ⟨es, h⟩; exact (accepted_nodup ds es h).1
+  · intro h; exact ⟨_, (addAll_nil_ok_iff ds _).mpr ⟨h, rfl⟩⟩
+
+/-! non-vacuity -/
+local instance {ε α : Type} [DecidableEq ε] [DecidableEq α] : DecidableEq (Except ε α) := decExcept
+example : addAll [] [⟨.types, 1, 10⟩, ⟨.enums, 1, 20⟩, ⟨.types, 2, 30⟩, ⟨.types, 1, 40⟩, ⟨.enums, 1, 50⟩]
+    = .error 40 := by decide
+example : addAll [] [⟨.types, 1, 10⟩, ⟨.enums, 1, 20⟩, ⟨.types, 2, 30⟩]
+    = .ok [(.types, 1), (.enums, 1), (.types, 2)] := by decide
+
 end JSight.C11
